@@ -877,6 +877,133 @@ fn exec_fuzz(toks: &[&str]) -> String {
     "total".into()
 }
 
+// ---- FILTER arithmetic (mirrors lean/Kolibrie/Model/Arith.lean) ----------------------------------------------------
+#[derive(Clone, Debug)]
+enum AE {
+    Op(String),
+    Bin(char, Box<AE>, Box<AE>),
+}
+fn ae_level(e: &AE) -> u8 {
+    match e {
+        AE::Op(_) => 2,
+        AE::Bin('+', ..) | AE::Bin('-', ..) => 0,
+        AE::Bin(..) => 1,
+    }
+}
+fn ae_print_at(extra: bool, need: u8, e: &AE, out: &mut Vec<String>) {
+    let paren = ae_level(e) < need || (extra && ae_level(e) < 2);
+    if paren {
+        out.push("(".into());
+    }
+    ae_print_top(extra, e, out);
+    if paren {
+        out.push(")".into());
+    }
+}
+fn ae_print_top(extra: bool, e: &AE, out: &mut Vec<String>) {
+    match e {
+        AE::Op(s) => out.push(s.clone()),
+        AE::Bin(c, l, r) => {
+            let (ln, rn) = if *c == '+' || *c == '-' { (0, 1) } else { (1, 2) };
+            ae_print_at(extra, ln, l, out);
+            out.push(c.to_string());
+            ae_print_at(extra, rn, r, out);
+        }
+    }
+}
+fn ae_dec(t: &mut std::slice::Iter<'_, &str>) -> Option<AE> {
+    let x = *t.next()?;
+    match x {
+        "+" | "-" | "*" | "/" => {
+            let l = ae_dec(t)?;
+            let r = ae_dec(t)?;
+            Some(AE::Bin(x.chars().next()?, Box::new(l), Box::new(r)))
+        }
+        _ => Some(AE::Op(unhex(x.strip_prefix('o')?)?)),
+    }
+}
+fn ae_enc_real(e: &shared::query::ArithmeticExpression<'_>, out: &mut Vec<String>) {
+    use shared::query::ArithmeticExpression as A;
+    match e {
+        A::Operand(s) => out.push(format!("o{}", hex(s))),
+        A::Add(l, r) => { out.push("+".into()); ae_enc_real(l, out); ae_enc_real(r, out); }
+        A::Subtract(l, r) => { out.push("-".into()); ae_enc_real(l, out); ae_enc_real(r, out); }
+        A::Multiply(l, r) => { out.push("*".into()); ae_enc_real(l, out); ae_enc_real(r, out); }
+        A::Divide(l, r) => { out.push("/".into()); ae_enc_real(l, out); ae_enc_real(r, out); }
+    }
+}
+/// `parse arith <extra> <ws> <tree>`
+fn exec_arith(toks: &[&str]) -> String {
+    if toks.len() != 5 {
+        return "bad-request".into();
+    }
+    let extra = toks[2] == "1";
+    let ws: u64 = match toks[3].parse() {
+        Ok(w) => w,
+        Err(_) => return "bad-request".into(),
+    };
+    let codes: Vec<&str> = toks[4].split(',').collect();
+    let mut it = codes.iter();
+    let tree = match ae_dec(&mut it) {
+        Some(t) if it.next().is_none() => t,
+        _ => return "bad-request".into(),
+    };
+    let mut tk = Vec::new();
+    ae_print_top(extra, &tree, &mut tk);
+    let h = fnv(&tk.join(" "));
+    // whitespace: always around operators (a sign directly before a number would change the token), free around parentheses
+    let mut r = Rng::new(ws | 1);
+    let mut text = String::new();
+    for (i, t) in tk.iter().enumerate() {
+        let is_paren = t == "(" || t == ")";
+        let prev_paren = i > 0 && (tk[i - 1] == "(" || tk[i - 1] == ")");
+        if i > 0 {
+            if is_paren || prev_paren {
+                text.push_str(*r.pick(&["", " ", "  ", "\n", "\t"]));
+            } else {
+                text.push_str(*r.pick(&[" ", "  ", "\n ", " \t"]));
+            }
+        }
+        text.push_str(t);
+    }
+    let res = catch_unwind(AssertUnwindSafe(|| match kolibrie::parser::parse_arithmetic_expression(&text) {
+        Ok((rest, e)) => {
+            if rest.trim().is_empty() {
+                let mut out = Vec::new();
+                ae_enc_real(&e, &mut out);
+                out.join(",")
+            } else {
+                "partial-accept".to_string()
+            }
+        }
+        Err(_) => "err".to_string(),
+    }))
+    .unwrap_or_else(|e| format!("panic:{}", panic_msg(e)));
+    format!("h={} {}", h, res)
+}
+fn gen_ae(r: &mut Rng, depth: u32) -> AE {
+    if depth == 0 || r.chance(1, 3) {
+        let atoms = ["?a", "?b", "?c", "?x1", "3", "10", "0.5", "?v_2"];
+        return AE::Op(r.pick(&atoms).to_string());
+    }
+    let c = *r.pick(&['+', '-', '*', '/', '-', '/']);
+    // chains: same-level operators nested on the left and, less often, on the right (which must then be parenthesised)
+    let l = gen_ae(r, depth - 1);
+    let rd = if r.chance(2, 3) { depth - 1 } else { 0 };
+    let rr = gen_ae(r, rd);
+    AE::Bin(c, Box::new(l), Box::new(rr))
+}
+fn enc_ae(e: &AE, out: &mut Vec<String>) {
+    match e {
+        AE::Op(s) => out.push(format!("o{}", hex(s))),
+        AE::Bin(c, l, r) => {
+            out.push(c.to_string());
+            enc_ae(l, out);
+            enc_ae(r, out);
+        }
+    }
+}
+
 fn nest_text(kind: &str, n: usize) -> Option<String> {
     Some(match kind {
         "group" => format!("SELECT * WHERE {}{}", "{".repeat(n), "}".repeat(n)),
@@ -1019,6 +1146,40 @@ impl Prop for C16 {
                 stats.hit("nest_history");
             }
         }
+        // FILTER arithmetic: every tree with two operators over three operands (both groupings, all operator pairs), with
+        // minimal and with redundant parentheses
+        for c1 in ['+', '-', '*', '/'] {
+            for c2 in ['+', '-', '*', '/'] {
+                for left in [true, false] {
+                    for extra in [0, 1] {
+                        let (a, b, c) = (AE::Op("?a".into()), AE::Op("4".into()), AE::Op("?c".into()));
+                        let t = if left {
+                            AE::Bin(c2, Box::new(AE::Bin(c1, Box::new(a), Box::new(b))), Box::new(c))
+                        } else {
+                            AE::Bin(c1, Box::new(a), Box::new(AE::Bin(c2, Box::new(b), Box::new(c))))
+                        };
+                        let mut code = Vec::new();
+                        enc_ae(&t, &mut code);
+                        out.push(format!("parse arith {} {} {}", extra, out.len() + 1, code.join(",")));
+                        stats.hit("arith_two_operators");
+                    }
+                }
+            }
+        }
+        // numbers at and beyond the machine word in every numeric position of a query
+        for n in ["18446744073709551615", "18446744073709551616", "99999999999999999999999999", "00000000000000000000000001", "9223372036854775808"] {
+            for t in [
+                format!("SELECT * WHERE {{ ?s ?p ?o }} LIMIT {}", n),
+                format!("SELECT * WHERE {{ {{ SELECT ?s WHERE {{ ?s ?p ?o }} LIMIT {} }} }}", n),
+                format!("SELECT * WHERE {{ ?s ?p ?o FILTER(?o > {}) }}", n),
+                format!("SELECT * WHERE {{ ?s ?p {} }}", n),
+                format!("SELECT * WHERE {{ ?s ?p ?o }} ORDER BY ?s LIMIT {} ", n),
+                format!("SELECT * WHERE {{ ?s ?p {}.{}e{} }}", n, n, n),
+            ] {
+                out.push(format!("parse fuzz {}", hex(&t)));
+                stats.hit("huge_numbers");
+            }
+        }
         // nested syntax trees around the nesting limit, through the round-trip check
         let mut r = Rng::new(16);
         for n in [1usize, 40, 80, 100, 110, 118, 120, 122, 124, 126, 127, 128, 129, 130, 140] {
@@ -1030,6 +1191,13 @@ impl Prop for C16 {
         out
     }
     fn gen(&self, r: &mut Rng, _tier: Tier, i: usize, stats: &mut Stats) -> String {
+        if i % 16 == 5 {
+            stats.hit("arith_random_tree");
+            let t = gen_ae(r, 4);
+            let mut code = Vec::new();
+            enc_ae(&t, &mut code);
+            return format!("parse arith {} {} {}", r.below(2), r.range(1, 1_000_000), code.join(","));
+        }
         match i % 8 {
             2 if r.chance(1, 2) => {
                 // sub-selects printed directly inside GRAPH / WHERE braces
@@ -1082,6 +1250,7 @@ impl Prop for C16 {
             Some("text") => exec_text(&toks),
             Some("fuzz") => exec_fuzz(&toks),
             Some("nest") | Some("nestseq") => exec_nest(req, &toks),
+            Some("arith") => exec_arith(&toks),
             _ => "bad-request".into(),
         }
     }
